@@ -38,7 +38,7 @@ import itertools
 from typing import List
 
 from pydcop.utils.expressionfunction import ExpressionFunction
-from pydcop.utils.simple_repr import SimpleRepr, SimpleReprException
+from pydcop.utils.simple_repr import SimpleRepr, SimpleReprException, simple_repr, from_repr
 
 VariableName = str
 
@@ -459,6 +459,21 @@ class VariableWithCostDict(Variable):
         return VariableWithCostDict(
             self.name, self.domain, self._costs, initial_value=self.initial_value
         )
+
+    def _simple_repr(self):
+        # json turns the (often int) keys of 'costs' into str: also send the costs as pairs
+        r = super()._simple_repr()
+        r["cost_items"] = [[simple_repr(k), simple_repr(c)] for k, c in self._costs.items()]
+        return r
+
+    @classmethod
+    def _from_repr(cls, r):
+        r = dict(r)
+        items = r.pop("cost_items", None)
+        v = super()._from_repr(r)
+        if items is not None:
+            v._costs = {from_repr(k): from_repr(c) for k, c in items}
+        return v
 
 
 class VariableWithCostFunc(Variable):
